@@ -86,7 +86,7 @@ func Prop(c Case, x *h.Ctx) *h.Violation {
 	for p := 8; p < len(orig); {
 		hd, ok := rio.ParseHeader(orig[p:])
 		if !ok {
-			return h.V("tabledamage/harness", "independent decoder cannot parse data file at %d", p)
+			panic(h.Infra{Msg: "harness decoder out of step with the on-disk format (not a verdict): " + fmt.Sprintf("independent decoder cannot parse data file at %d", p)})
 		}
 		pl := int(hd.USize)
 		if c.DataComp != 0 {
@@ -99,7 +99,7 @@ func Prop(c Case, x *h.Ctx) *h.Violation {
 		p += hd.Len + pl
 	}
 	if len(spans) != len(keys) {
-		return h.V("tabledamage/harness", "data file has %d records, table has %d keys", len(spans), len(keys))
+		panic(h.Infra{Msg: "harness decoder out of step with the on-disk format (not a verdict): " + fmt.Sprintf("data file has %d records, table has %d keys", len(spans), len(keys))})
 	}
 	region := func(pos int) string {
 		if pos < 8 {
